@@ -310,7 +310,66 @@ pub fn execute<V: Variant>(plan: &Plan) -> Outcome {
                         Err(u) => return fail(st, log, format!("verify{} {} on an honest signature", n, u.signature()), String::new()),
                     }
                 }
+                // equality is not a property of fresh objects only: both signature objects have now been used
+                match crate::guard::guarded(|| V::sig_from_bytes(&sb)) {
+                    Ok(Ok(again)) => {
+                        if again != sig || again != back {
+                            return fail(st, log, format!("decoded signature{} differs from the original once the original has been verified", n), format!("op {}", i));
+                        }
+                    }
+                    _ => return fail(st, log, format!("Signature{}::from_bytes refuses bytes it accepted before", n), format!("op {}", i)),
+                }
+                if V::sig_to_bytes(&sig) != sb || V::sig_to_bytes(&back) != sb {
+                    return fail(st, log, format!("signature{} encodes differently once it has been verified", n), format!("op {}", i));
+                }
             }
+        }
+    }
+    // a verifier that joins late decodes the published bytes again: the object must equal the one
+    // decoded at boot (used for every verification since) and the signer's original (never used so far)
+    st.inc("late_joiner_checks");
+    let late = match crate::guard::guarded(|| V::pk_from_bytes(&published)) {
+        Ok(Ok(k)) => k,
+        _ => return fail(st, log, format!("PublicKey{}::from_bytes refuses bytes it accepted at boot", n), String::new()),
+    };
+    if late != vpk {
+        return fail(st, log, format!("decoded public key{} differs from an earlier decoding of the same bytes that has been used to verify", n), String::new());
+    }
+    if late != pk {
+        return fail(st, log, format!("decoded public key{} differs from the original", n), "at the end of the life-cycle".to_string());
+    }
+    if V::pk_to_bytes(&vpk) != published || V::pk_to_bytes(&pk) != published {
+        return fail(st, log, format!("public key{} encodes differently at the end of its life-cycle", n), String::new());
+    }
+    // ... and the other way round: the original is used (one more signature), then compared with fresh decodings
+    {
+        let msg = b"late joiner".to_vec();
+        let (r, _) = world::sign_sim::<V>(&live, &msg, &SignPlan::uniform(hash_bytes(77, &plan.key_seed)), None);
+        if let Ok(sig) = r {
+            match crate::guard::guarded(|| V::verify(&msg, &sig, &pk)) {
+                Ok(true) => {}
+                Ok(false) => return fail(st, log, format!("signature{} does not verify under the signer's own public key object", n), "at the end of the life-cycle".to_string()),
+                Err(u) => return fail(st, log, format!("verify{} {} on an honest signature", n, u.signature()), String::new()),
+            }
+            let fresh = match crate::guard::guarded(|| V::pk_from_bytes(&published)) {
+                Ok(Ok(k)) => k,
+                _ => return fail(st, log, format!("PublicKey{}::from_bytes refuses bytes it accepted at boot", n), String::new()),
+            };
+            if fresh != pk || late != pk {
+                return fail(st, log, format!("decoded public key{} differs from the original once the original has been used to verify", n), String::new());
+            }
+        }
+        // the secret key object has signed throughout: a last reload must still equal it
+        match crate::guard::guarded(|| V::sk_from_bytes(&disk)) {
+            Ok(Ok(k)) => {
+                if k != live {
+                    return fail(st, log, format!("reloaded secret key{} differs from the key that was serialised", n), "at the end of the life-cycle".to_string());
+                }
+                if V::sk_to_bytes(&live) != disk {
+                    return fail(st, log, format!("secret key{} encodes differently after it has signed", n), String::new());
+                }
+            }
+            _ => return fail(st, log, format!("SecretKey{}::from_bytes refuses bytes it accepted before", n), "at the end of the life-cycle".to_string()),
         }
     }
     st.add("restarts", restarts as u64);
